@@ -62,7 +62,7 @@ declare_heap_fields()
 
 # --- sequence/sequence.py -----------------------------------------------------
 shape("_Call", name="str", args="opaque", kwargs="opaque")
-shape("Variable")
+shape("Variable", name="str", size="int", dtype="opaque", value=(("opt", ("ref", "Obj")), M), _count=("int", M))
 shape("VariableItem")
 shape("ParamObj")
 shape("Obj")
@@ -98,4 +98,8 @@ shape("ChannelSamples", amp=("list", "real"), det=("list", "real"), phase=("list
       eom_blocks=("list", ("ref", "_EOMSettings")), _centered_phase=("opt", ("list", "real")),
       slots="opaque", eom_start_buffers="opaque", eom_end_buffers="opaque", target_time_slots="opaque")
 SHAPES["ChannelSamples"].derived = {"duration"}
+declare_heap_fields()
+
+# --- register/_coordinates.py (C19) ----------------------------------------------
+shape("CoordsCollection", _rounded_coords=("ref", "Obj"))
 declare_heap_fields()
